@@ -71,7 +71,11 @@ func (x *Exec) loopHeader(st *State, fr *Frame, b *ssa.BasicBlock, prev *ssa.Bas
 	if fr.ct != nil {
 		invs = fr.ct.invs[l.ordinal]
 	}
-	if len(invs) == 0 && x.boundK > 0 {
+	lock := false
+	if len(invs) == 0 && x.lockstep && x.lockLoops[loopName(fr.fn, l)] {
+		lock = true
+	}
+	if len(invs) == 0 && x.boundK > 0 && !lock {
 		// bounded run: at most boundK iterations per entry of this loop
 		if fr.visits == nil {
 			fr.visits = map[*ssa.BasicBlock]int{}
@@ -83,11 +87,27 @@ func (x *Exec) loopHeader(st *State, fr *Frame, b *ssa.BasicBlock, prev *ssa.Bas
 				delete(fr.forked, b)
 			}
 		}
+		if !l.body[prev] {
+			delete(fr.iterSig, b)
+			delete(fr.prevSig, b)
+		}
 		fr.visits[b]++
 		if fr.forked[b] && fr.visits[b] > x.boundK+1 {
-			// a loop whose course depends on symbolic data: at most boundK iterations per entry
-			x.boundHits++
-			return nil, true
+			// a loop whose course depends on symbolic data: boundK iterations per entry are
+			// explored freely; beyond that only "more of the same" - an iteration that takes
+			// exactly the branches the previous one took - up to boundTail iterations, which
+			// reaches what only shows with many elements (every third, the fifth, aliasing)
+			if fr.visits[b] > boundTail+1 || fr.iterSig[b] != fr.prevSig[b] {
+				x.boundHits++
+				return nil, true
+			}
+		}
+		if fr.iterSig != nil {
+			if fr.prevSig == nil {
+				fr.prevSig = map[*ssa.BasicBlock]string{}
+			}
+			fr.prevSig[b] = fr.iterSig[b]
+			fr.iterSig[b] = ""
 		}
 		fr.unroll++
 		if fr.unroll > unrollLimit {
@@ -104,7 +124,7 @@ func (x *Exec) loopHeader(st *State, fr *Frame, b *ssa.BasicBlock, prev *ssa.Bas
 		}
 		return nil, false
 	}
-	if len(invs) == 0 {
+	if len(invs) == 0 && !lock {
 		fr.unroll++
 		if fr.unroll > unrollLimit {
 			fail("loop %d of %s does not unroll (no invariant given)", l.ordinal, fr.fn)
@@ -201,9 +221,16 @@ func (x *Exec) loopHeader(st *State, fr *Frame, b *ssa.BasicBlock, prev *ssa.Bas
 				x.oblige(st, fmt.Sprintf("body%d.%d", l.ordinal, k), t, "every iteration: "+cl.text)
 			}
 		}
+		if lock {
+			// lockstep: the state handed to the next iteration, loop-carried values in the common order
+			return []Out{{st: st, kind: oCut, vals: permute(in, fr.lockPerm[b]), msg: fr.lockKey[b]}}, true
+		}
 		return []Out{{st: st, kind: oCut}}, true
 	}
 	// entry
+	if lock {
+		x.lockEnter(st, fr, b, in)
+	}
 	f2 := fr.clone()
 	setPhis(f2, in)
 	fr.preSt = append(fr.preSt, st.fork())
@@ -395,18 +422,31 @@ func (x *Exec) runBodyOnce(st *State, fr *Frame, b *ssa.BasicBlock, nphi int, pr
 }
 
 func (x *Exec) havocLoop(st *State, fr *Frame, b *ssa.BasicBlock, nphi int, written map[*Cell]bool) {
+	lk := ""
+	if x.lockstep {
+		lk = fr.lockKey[b]
+	}
 	for i := 0; i < nphi; i++ {
 		phi := b.Instrs[i].(*ssa.Phi)
 		name := phi.Comment
 		if name == "" {
 			name = phi.Name()
 		}
+		hn := fr.fn.Name() + "$" + name
+		if lk != "" {
+			// the same unknown for corresponding loop-carried variables of the two versions
+			pos := i
+			if pm := fr.lockPerm[b]; i < len(pm) {
+				pos = pm[i]
+			}
+			hn = fmt.Sprintf("%s.p%d", lk, pos)
+		}
 		old := fr.regs[phi]
 		var nv Value
 		if old != nil {
-			nv = x.havocLike(st, old, phi.Type(), fr.fn.Name()+"$"+name)
+			nv = x.havocLike(st, old, phi.Type(), hn)
 		} else {
-			nv = x.symValue(st, phi.Type(), fr.fn.Name()+"$"+name)
+			nv = x.symValue(st, phi.Type(), hn)
 		}
 		fr.regs[phi] = nv
 		if phi.Comment != "" {
@@ -431,11 +471,158 @@ func (x *Exec) havocLoop(st *State, fr *Frame, b *ssa.BasicBlock, nphi int, writ
 		cells = append(cells, c)
 	}
 	sort.Slice(cells, func(i, j int) bool { return cells[i].id < cells[j].id })
+	nf := 0
 	for _, c := range cells {
-		st.store[c] = x.havocLike(st, st.store[c], c.typ, "loop$"+c.name)
+		hn := "loop$" + c.name
+		if lk != "" {
+			if x.lockShared[c] {
+				hn = fmt.Sprintf("%s.wc%d", lk, c.id) // a cell both runs know
+			} else {
+				hn = fmt.Sprintf("%s.wf%d", lk, nf) // the n-th written cell that this run allocated
+				nf++
+			}
+		}
+		st.store[c] = x.havocLike(st, st.store[c], c.typ, hn)
 		st.wlog = append(st.wlog, c.id)
 	}
 }
+
+// loopName: a loop of a function, the same for a function and its baseline copy.
+func loopName(fn *ssa.Function, l *loopT) string {
+	return fmt.Sprintf("%s#%d", strings.ReplaceAll(fn.String(), basePrefix, ""), l.ordinal)
+}
+
+type lockRec struct {
+	key  string
+	vals []Value
+	st   *State
+}
+
+type phiSig struct{ typ, entry string }
+
+func permute(vals []Value, perm []int) []Value {
+	if perm == nil {
+		return vals
+	}
+	n := 0
+	for i, p := range perm {
+		if i < len(vals) && p >= n {
+			n = p + 1
+		}
+	}
+	out := make([]Value, n)
+	for i, v := range vals {
+		if i < len(perm) {
+			out[perm[i]] = v
+		}
+	}
+	return out
+}
+
+// lockEnter: a loop cut in lockstep is reached. It gets the name of the n-th
+// such loop on this path; its loop-carried variables are put in an order
+// common to both versions (run A fixes it, run B matches its own variables to
+// it by type and entry value); the state in which the loop is reached is
+// recorded, to be compared between the versions.
+func (x *Exec) lockEnter(st *State, fr *Frame, b *ssa.BasicBlock, in []Value) {
+	lk := x.occName(st, "lk")
+	if fr.lockKey == nil {
+		fr.lockKey = map[*ssa.BasicBlock]string{}
+		fr.lockPerm = map[*ssa.BasicBlock][]int{}
+	}
+	fr.lockKey[b] = lk
+	qual := func(p *types.Package) string { return p.Name() }
+	sigs := make([]phiSig, len(in))
+	for i := range in {
+		phi := b.Instrs[i].(*ssa.Phi)
+		sigs[i] = phiSig{typ: types.TypeString(phi.Type(), qual)}
+		if t, ok := in[i].(*Term); ok {
+			sigs[i].entry = t.String()
+		}
+	}
+	perm := make([]int, len(in))
+	for i := range perm {
+		perm[i] = i
+	}
+	if !x.lockRunB {
+		if x.lockSigs == nil {
+			x.lockSigs = map[string][]phiSig{}
+		}
+		if _, ok := x.lockSigs[lk]; !ok {
+			x.lockSigs[lk] = sigs
+		}
+	} else if ref, ok := x.lockSigs[lk]; ok {
+		used := make([]bool, len(ref))
+		for i := range perm {
+			perm[i] = -1
+		}
+		// same type and same entry value first, then same type in order
+		for pass := 0; pass < 2; pass++ {
+			for i, sg := range sigs {
+				if perm[i] >= 0 {
+					continue
+				}
+				for j, rs := range ref {
+					if used[j] || rs.typ != sg.typ || (pass == 0 && (rs.entry != sg.entry || sg.entry == "")) {
+						continue
+					}
+					perm[i], used[j] = j, true
+					break
+				}
+			}
+		}
+		next := len(ref)
+		for i := range perm {
+			if perm[i] < 0 {
+				perm[i] = next // a variable the other version does not carry
+				next++
+			}
+		}
+	}
+	// congruent counters: two loop-carried variables that start from the same value and are both
+	// advanced by the same constant are the same variable (a redundant index one version dropped)
+	step := func(i int) (string, bool) {
+		phi := b.Instrs[i].(*ssa.Phi)
+		l := x.loops(fr.fn)[b]
+		res := ""
+		for ei, e := range phi.Edges {
+			if l == nil || !l.body[b.Preds[ei]] {
+				continue
+			}
+			bo, ok := e.(*ssa.BinOp)
+			if !ok || bo.X != ssa.Value(phi) {
+				return "", false
+			}
+			cst, ok := bo.Y.(*ssa.Const)
+			if !ok || cst.Value == nil {
+				return "", false
+			}
+			s := bo.Op.String() + cst.Value.ExactString()
+			if res != "" && res != s {
+				return "", false
+			}
+			res = s
+		}
+		return res, res != ""
+	}
+	for i := range perm {
+		si, ok := step(i)
+		if !ok || sigs[i].entry == "" {
+			continue
+		}
+		for j := 0; j < i; j++ {
+			if sj, ok := step(j); ok && sj == si && sigs[j] == sigs[i] {
+				perm[i] = perm[j]
+				break
+			}
+		}
+	}
+	fr.lockPerm[b] = perm
+	if x.dry == 0 {
+		x.lockEntries = append(x.lockEntries, lockRec{key: lk, vals: permute(in, perm), st: st.fork()})
+	}
+}
+
 
 // havocLike returns a fresh symbolic value of the same shape as old.
 func (x *Exec) havocLike(st *State, old Value, t types.Type, name string) Value {
@@ -510,7 +697,9 @@ func (x *Exec) frameEnv(fr *Frame) *Env {
 // boundedFork is called in a bounded run when a symbolic branch is forked at
 // block b: every loop containing b now depends on symbolic data, and its
 // iterations are counted (see loopHeader).
-func (x *Exec) boundedFork(fr *Frame, b *ssa.BasicBlock) {
+const boundTail = 13
+
+func (x *Exec) boundedFork(fr *Frame, b *ssa.BasicBlock, succ int) {
 	if x.boundK <= 0 {
 		return
 	}
@@ -520,6 +709,13 @@ func (x *Exec) boundedFork(fr *Frame, b *ssa.BasicBlock) {
 				fr.forked = map[*ssa.BasicBlock]bool{}
 			}
 			fr.forked[h] = true
+			if fr.iterSig == nil {
+				fr.iterSig = map[*ssa.BasicBlock]string{}
+			}
+			fr.iterSig[h] += fmt.Sprintf("%d:%d;", b.Index, succ)
+			if x.symLoops != nil {
+				x.symLoops[loopName(fr.fn, l)] = true
+			}
 		}
 	}
 }
